@@ -57,6 +57,26 @@ type Ctx struct {
 	start time.Time
 	// current program for position rendering
 	cur *Prog
+	// rename, when set, maps the rule id a shared rule reports under to the id of the property that
+	// re-evaluates it as one of its own premises (see As).
+	rename func(string) string
+}
+
+// As runs f with every obligation whose rule id starts with `from` recorded under `to` instead:
+// a property that rests on another property's rule re-evaluates it as a premise of its own.
+func (c *Ctx) As(from, to string, f func()) {
+	old := c.rename
+	c.rename = func(r string) string {
+		if old != nil {
+			r = old(r)
+		}
+		if strings.HasPrefix(r, from) {
+			return to + r[len(from):]
+		}
+		return r
+	}
+	defer func() { c.rename = old }()
+	f()
 }
 
 // Progs is the lazily loaded set of configurations.
@@ -112,6 +132,9 @@ func (c *Ctx) pos(pos token.Pos) string {
 }
 
 func (c *Ctx) add(rule, construct string, pos token.Pos, v Verdict, nontrivial bool, format string, args ...any) {
+	if c.rename != nil {
+		rule = c.rename(rule)
+	}
 	o := Ob{Rule: rule, Construct: construct, Pos: c.pos(pos), Verdict: v, Nontrivial: nontrivial, Detail: fmt.Sprintf(format, args...)}
 	if c.cur != nil {
 		o.Config = c.cur.Name
